@@ -340,6 +340,7 @@ static void c06_ctl(const op_t *op, reg *r, int slot) {
 		if (r->kind == RK_TIMER && r->relaxed && !item_get(it, "pvtt", 0)) { r->thr = 0; r->relaxed = 0; } /* most timers live on a real thread; "pvtt": on the shared virtual thread */
 		if (r->kind != RK_TIMER) { if (is_read_kind(r->kind) || is_write_kind(r->kind)) ff &= TP_FF_RW_MASK; }
 		if (r->kind == RK_TIMER && (ff & TP_FF_T_ABSTIME)) data += (sim_realtime_offset() + sim_now()) / unit_ns(ff);
+		if (r->kind == RK_TIMER && r->relaxed && PW->n > 1) sim_set_context_tag("timer-on-virtual-thread"); /* precondition of known finding KF-C06-3 */
 		/* the registration may fire before the call returns (it is live as soon as it is installed) */
 		r->registered = 1; r->enabled = 1; r->flags = fl; r->fire_since_arm = 0; r->late_allowed = 0;
 		r->arm_seq = sim_evseq();
